@@ -234,6 +234,11 @@ impl<'a, 'tcx> Cx<'a, 'tcx> {
             ty::FnDef(d, args) => return self.fn_const(*d, args),
             _ => {}
         }
+        if let Const::Unevaluated(uv, _) = c.const_ {
+            if let Some(p) = uv.promoted {
+                return format!("{{\"promo\":{},\"ty\":{}}}", p.as_usize(), esc(&ty_s(t)));
+            }
+        }
         // scalars
         if t.is_integral() || t.is_bool() || t.is_char() {
             if let Some(si) = c.const_.try_eval_scalar_int(tcx, self.env) {
@@ -386,6 +391,27 @@ impl<'a, 'tcx> Cx<'a, 'tcx> {
                 }
                 format!("[\"other\",{}]", esc(&d))
             }
+        }
+    }
+
+    fn collect_consts(&self, r: &Rvalue<'tcx>, out: &mut Vec<String>) {
+        let mut push = |o: &Operand<'tcx>| {
+            if let Operand::Constant(c) = o {
+                out.push(self.constant(c));
+            }
+        };
+        match r {
+            Rvalue::Use(o, ..) | Rvalue::Cast(_, o, _) | Rvalue::UnaryOp(_, o) | Rvalue::Repeat(o, _) => push(o),
+            Rvalue::BinaryOp(_, b) => {
+                push(&b.0);
+                push(&b.1);
+            }
+            Rvalue::Aggregate(_, ops) => {
+                for o in ops.iter() {
+                    push(o);
+                }
+            }
+            _ => {}
         }
     }
 
@@ -630,8 +656,29 @@ fn dump_body<'tcx>(tcx: TyCtxt<'tcx>, d: LocalDefId) {
         return;
     }
     let body = steal.borrow();
-    let cx = Cx { tcx, body: &body, def: d, env: TypingEnv::post_analysis(tcx, d.to_def_id()) };
-    let s = cx.body_json();
+    let env = TypingEnv::post_analysis(tcx, d.to_def_id());
+    let cx = Cx { tcx, body: &body, def: d, env };
+    let mut s = cx.body_json();
+    // constants inside promoted bodies (string / integer literals behind `&`)
+    let mut promos = Vec::new();
+    if !_promoted.is_stolen() {
+        let pb = _promoted.borrow();
+        for pbody in pb.iter() {
+            let pcx = Cx { tcx, body: pbody, def: d, env };
+            let mut consts = Vec::new();
+            for data in pbody.basic_blocks.iter() {
+                for st in &data.statements {
+                    if let StatementKind::Assign(b) = &st.kind {
+                        let (_, r) = &**b;
+                        pcx.collect_consts(r, &mut consts);
+                    }
+                }
+            }
+            promos.push(arr(consts));
+        }
+    }
+    s.pop();
+    let _ = write!(s, ",\"promos\":{}}}", arr(promos));
     OUT.lock().unwrap().push(s);
 }
 
